@@ -353,13 +353,17 @@ class Explorer(object):
             return ('f', v.text)
         return ('p', v.text or k)
 
-    def _struct_fields(self, sty):
+    def _struct_fields(self, sty, prefer=None):
+        # anonymous structs get the same IR name (%struct.anon) in different modules: look in the module of
+        # the function being explored first
+        if prefer is not None and sty in prefer.structs and prefer.structs[sty] is not None:
+            return prefer.structs[sty], prefer
         for m in self.mods:
             if sty in m.structs and m.structs[sty] is not None:
                 return m.structs[sty], m
         return None, None
 
-    def _gep_value(self, base, basety, idxs, st):
+    def _gep_value(self, base, basety, idxs, st, mod=None):
         # basety is a pointer type 'T*'
         cur = basety[:-1].strip() if basety.endswith('*') else basety
         out = base
@@ -372,8 +376,8 @@ class Explorer(object):
                     out = ('idx', out, iv)
                 continue
             if cur.startswith('%struct.') or cur.startswith('%union.'):
-                ftys, mod = self._struct_fields(cur)
-                if ftys is None or not is_const(iv):
+                ftys, mod = self._struct_fields(cur, mod)
+                if ftys is None or not is_const(iv) or not (0 <= iv[1] < len(ftys)):
                     out = ('idx', out, iv)
                     continue
                 k = iv[1]
@@ -626,7 +630,7 @@ class Explorer(object):
                                            depth=depth, fn=fn.name, seq=len(st.assume)))
                 elif op == 'getelementptr':
                     base = self.ev(ins.ops[0], st)
-                    st.env[ins.res] = self._gep_value(base, ins.ops[0].ty, ins.ops[1:], st)
+                    st.env[ins.res] = self._gep_value(base, ins.ops[0].ty, ins.ops[1:], st, getattr(fn, 'module', None))
                 elif op == 'bitcast':
                     v = self.ev(ins.ops[0], st)
                     sty = ins.ops[0].ty
